@@ -7,6 +7,7 @@ import (
 	"fmt"
 	"math"
 
+	"github.com/tidwall/tile38/internal/field"
 	"github.com/tidwall/tile38/internal/object"
 )
 
@@ -56,7 +57,19 @@ func (c *Collection) VerifAudit() error {
 			}
 		}
 		points += o.Geo().NumPoints()
-		weight += o.Weight()
+		// the size of an object is recomputed from what can be retrieved of it (id, value,
+		// fields read one by one into a fresh list), not taken from its stored encoding: two
+		// objects with the same retrievable content weigh the same
+		var fl field.List
+		o.Fields().Scan(func(f field.Field) bool {
+			fl = fl.Set(f)
+			return true
+		})
+		cw := object.New(o.ID(), o.Geo(), o.Expires(), fl).Weight()
+		if cw != o.Weight() {
+			return fmt.Errorf("object %q weighs %d bytes as stored, %d when rebuilt from its retrievable id, value and fields", o.ID(), o.Weight(), cw)
+		}
+		weight += cw
 	}
 	if c.spatial.Len() != nindexed {
 		return fmt.Errorf("spatial index holds %d entries, %d indexable geometries are retrievable", c.spatial.Len(), nindexed)
